@@ -148,8 +148,11 @@ impl Handle {
   /// but their answers are not compared under a plain-query key.
   pub fn reliable(&self) -> bool {
     match self {
-      Handle::T(t) => t.get_year() >= 1 && t.get_year() <= 9998,
-      Handle::CM(m) => m.get_sixty_cycle_year().get_year() >= 1 && m.get_sixty_cycle_year().get_year() <= 9998,
+      Handle::T(t) => t.get_year() >= 2 && t.get_year() <= 9997,
+      // the same at the edges for sixty-cycle months (stepping from year -1 to "year 1" keeps a
+      // month pillar that from_index(1, i) does not give) and, to be safe, festivals
+      Handle::CM(m) => m.get_sixty_cycle_year().get_year() >= 2 && m.get_sixty_cycle_year().get_year() <= 9997,
+      Handle::LF(f) => f.get_day().get_year() >= 2 && f.get_day().get_year() <= 9997,
       _ => true,
     }
   }
